@@ -1,6 +1,6 @@
 ---------------------------- MODULE MC_RoundTrip ----------------------------
 EXTENDS RoundTrip
-PathsDef == {"a", "b", "s/c", "s/t/d"}
+PathsDef == {"a", "b", "s/c", "s/t/d", "u/e"}
 ContentsDef == {"c0", "c1", "c2", "c3"}      \* c3 has the size of c1
 SizeDef == [c \in ContentsDef |-> IF c = "c0" THEN 0 ELSE IF c \in {"c1", "c3"} THEN 18 ELSE 20]
 ContentsTr == ContentsDef \cup {"other"}
